@@ -1,6 +1,9 @@
 (* PV.C14.Refuted — counter-models: for every guard conjunct that exists because the CODE fails, a
    concrete dataset (the stored witness of the known finding, reproduced on the real code by the
-   check) on which the guard is false and the unguarded statement is false of the model. *)
+   check) on which the guard is false and the unguarded statement is false of the model.
+   After the fix commits 0ec2f84 (first-dose test), f3d3785 ('ID' literal), 84913ce (squeeze) and
+   81d9761 (no covariates) the former witnesses of those four defects are regression examples of the
+   repaired behaviour. *)
 From Coq Require Import ZArith List Bool.
 From PV Require Import C14.Model.
 Import ListNotations.
@@ -131,18 +134,12 @@ Definition mi_admid_evid4 : minfo := (mkMinfo [((1)%Z, (1)%Z, false); ((2)%Z, (2
 
 Definition ann_of (d : dataset) := ann (ds_sch d) (ds_rows d).
 
-(* `if 0 in groupind`: the second individual's observation at the time of its first dose gets period 0 *)
-Theorem doseid_first_dose_refuted :
-  exists d, guard_doseid d = false /\ g_no_tie_after_first_dose (ann_of d) = false
-            /\ doseid_impl d = Ok [1; 1; 1; 0] /\ doseid_walk d = [1; 1; 1; 1].
-Proof. exists w_doseid_first_dose. repeat split; vm_compute; reflexivity. Qed.
-
-(* only that conjunct is false on the witness *)
-Example doseid_first_dose_only :
-  let d := w_doseid_first_dose in
-  g_id_named (ds_sch d) && g_amt_nonneg (ds_rows d) && g_labels_range (ds_rows d) && g_chrono (ann_of d)
-  && g_tie_one_reset_group (ann_of d) && g_no_obs_between_tied_doses (ann_of d) = true.
-Proof. vm_compute. reflexivity. Qed.
+(* formerly [1; 1; 1; 0] (`if 0 in groupind`): every individual's observation at the time of its first
+   dose stays in period 1, and the witness is inside guard_doseid now *)
+Example doseid_first_dose_fixed :
+  guard_doseid w_doseid_first_dose = true /\ doseid_impl w_doseid_first_dose = Ok [1; 1; 1; 1]
+  /\ doseid_walk w_doseid_first_dose = [1; 1; 1; 1].
+Proof. repeat split; vm_compute; reflexivity. Qed.
 
 (* tie groups ignore the reset group *)
 Theorem doseid_reset_group_refuted :
@@ -152,8 +149,8 @@ Proof. exists w_doseid_reset_group. repeat split; vm_compute; reflexivity. Qed.
 
 Example doseid_reset_group_only :
   let d := w_doseid_reset_group in
-  g_id_named (ds_sch d) && g_amt_nonneg (ds_rows d) && g_labels_range (ds_rows d) && g_chrono (ann_of d)
-  && g_no_obs_between_tied_doses (ann_of d) && g_no_tie_after_first_dose (ann_of d) = true.
+  g_amt_nonneg (ds_rows d) && g_labels_range (ds_rows d) && g_chrono (ann_of d)
+  && g_no_obs_between_tied_doses (ann_of d) = true.
 Proof. vm_compute. reflexivity. Qed.
 
 (* an observation between two doses of its own time point *)
@@ -164,26 +161,29 @@ Proof. exists w_doseid_obs_between_doses. repeat split; vm_compute; reflexivity.
 
 Example doseid_obs_between_only :
   let d := w_doseid_obs_between_doses in
-  g_id_named (ds_sch d) && g_amt_nonneg (ds_rows d) && g_labels_range (ds_rows d) && g_chrono (ann_of d)
-  && g_tie_one_reset_group (ann_of d) && g_no_tie_after_first_dose (ann_of d) = true.
+  g_amt_nonneg (ds_rows d) && g_labels_range (ds_rows d) && g_chrono (ann_of d)
+  && g_tie_one_reset_group (ann_of d) = true.
 Proof. vm_compute. reflexivity. Qed.
 
-(* df.groupby('ID') with an id column of another name *)
-Theorem id_literal_refuted :
-  exists d, guard_doseid d = false /\ g_id_named (ds_sch d) = false
-            /\ doseid_impl d = Err KeyError /\ tad_impl d = Err KeyError /\ doseid_walk d = [1; 1; 2; 2].
-Proof. exists w_id_literal. repeat split; vm_compute; reflexivity. Qed.
+(* formerly KeyError('ID'): an id column called SUBJ with an event column *)
+Example id_literal_fixed :
+  id_named_ID (ds_sch w_id_literal) = false /\ has_evid (ds_sch w_id_literal) = true
+  /\ guard_doseid w_id_literal = true /\ doseid_impl w_id_literal = Ok [1; 1; 2; 2]
+  /\ doseid_walk w_id_literal = [1; 1; 2; 2]
+  /\ option_map (map snd) (match tad_impl w_id_literal with Ok l => Some l | Err _ => None end) = Some [0; 4; 0; 4].
+Proof. repeat split; vm_compute; reflexivity. Qed.
 
 (* MDV=1 on a non-dose record and no EVID column: EVID 1 instead of 2 *)
 Theorem evid_refuted :
   exists d, guard_evid d = false /\ map snd (evid_impl d) = [1; 0; 1; 0; 1] /\ evid_walk d = [1; 0; 2; 0; 1].
 Proof. exists w_evid_other_records. repeat split; vm_compute; reflexivity. Qed.
 
-(* exactly one observation: squeeze() returns a scalar, len() of it raises *)
-Theorem obs_squeeze_refuted :
-  exists d, guard_obs_count d = false /\ obs_impl d = Scalar 12 /\ nobs_impl d = Err TypeError
-            /\ nobs_per_impl d = Err AttributeError /\ obs_walk (ds_sch d) (ds_rows d) = [(1, 4, 12)].
-Proof. exists w_squeeze_single. repeat split; vm_compute; reflexivity. Qed.
+(* formerly Scalar 12 / TypeError / AttributeError: exactly one observation *)
+Example obs_single_fixed :
+  obs_impl w_squeeze_single = Series [(1, 4, 12)] /\ nobs_impl w_squeeze_single = Ok 1
+  /\ nobs_per_impl w_squeeze_single = Ok [(1, 1)]
+  /\ obs_walk (ds_sch w_squeeze_single) (ds_rows w_squeeze_single) = [(1, 4, 12)].
+Proof. repeat split; vm_compute; reflexivity. Qed.
 
 (* descending ids and a group that had to be re-sorted: the individuals come back in ascending order *)
 Theorem expand_order_refuted :
@@ -232,9 +232,9 @@ Theorem tad_id_dtype_refuted :
             /\ match tad_impl d with Ok _ => true | Err _ => false end = true.
 Proof. exists w_tad_id_dtype. repeat split; vm_compute; reflexivity. Qed.
 
-(* no covariate column: IndexError for EVERY dataset *)
-Theorem tvc_no_covariates_refuted : forall d, tvc_impl 0 d = Err IndexError /\ tvc_walk 0 d = [].
-Proof. intros d. split; reflexivity. Qed.
+(* formerly IndexError: no covariate column *)
+Example tvc_no_covariates_fixed : tvc_impl 0 w_tvc_no_covariates = Ok [] /\ tvc_walk 0 w_tvc_no_covariates = [].
+Proof. split; reflexivity. Qed.
 
 (* admid column, central compartment without a dose *)
 Theorem cmt_unbound_refuted :
